@@ -218,6 +218,12 @@ class SSHLocalForwarder(SSHForwarder):
 
         assert self._peer is not None
 
+        if not self._transport:
+            # The local connection was lost while the channel was being
+            # opened, so there is nothing left to forward
+            self._peer.close()
+            return
+
         if self._inpbuf:
             self._peer.write(self._inpbuf)
             self._inpbuf = b''
